@@ -19,15 +19,37 @@ FORCE = {'hibernation': True}
 PID = "C18"
 
 
+D13 = "C18/no-progress/all-active-demes-hibernating"
+
+
+def explain_stalls(sl):
+    """A stall with every active deme asleep is the known finding D13 only when the model — which
+    implements the sprouting and hibernation rules as specified — reproduces the whole run, i.e.
+    the deme really had no admissible sprout.  Otherwise it is a different violation."""
+    idx = [i for i, v in enumerate(sl.violations) if v["signature"] == D13]
+    if not idx:
+        return
+    res = refine.refine_specs([sl.violations[i]["replay"]["spec"] for i in idx])
+    for k, i in enumerate(idx):
+        if res.get(k):
+            d = res[k][0]
+            sl.violations[i]["signature"] = "C18/no-progress/stall-not-explained-by-the-sprouting-rules"
+            sl.violations[i]["detail"] += f" — and the model disagrees with the run ({d.get('cat')}: {str(d.get('model'))[:200]})"
+
+
 def run(ctx):
+    mon = runs.monitor_batch(ctx, PID, ctx.size(250, 3000), force=FORCE)
+    explain_stalls(mon)
     return [
         refine.refine_batch(ctx, ctx.size(120, 1500), force=FORCE, pid=PID, name="trace-refinement(Tree.step vs DemeTree.run)"),
-        runs.monitor_batch(ctx, PID, ctx.size(250, 3000), force=FORCE),
+        mon,
     ]
 
 
 def search(ctx, broken):
-    return runs.monitor_batch(ctx, PID, 500, salt=97, force=FORCE).violations
+    sl = runs.monitor_batch(ctx, PID, 500, salt=97, force=FORCE)
+    explain_stalls(sl)
+    return sl.violations
 
 
 def replay(data):
